@@ -410,7 +410,9 @@ def midi_pitch_to_frequency(
     freq : float or ndarray
         Frequency of the note(s).
     """
-    freq = (a4 / 32) * (2 ** ((midi_pitch - 9) / 12))
+    # subtract in floating point: for unsigned integer arrays (and numpy
+    # unsigned scalars) `midi_pitch - 9` wraps around for the pitches below 9
+    freq = (a4 / 32) * (2 ** ((midi_pitch - 9.0) / 12))
     return freq
 
 
